@@ -19,7 +19,7 @@
    The two-character rules are modelled by the extra mode [LStrEsc] = 'inside a string literal, the
    previous character was an unconsumed backslash'. *)
 From Coq Require Import List Ascii Bool ZArith.
-From OsmtV.Pipe Require Import PipeBase.
+From OsmtV.Pipe Require Import PipeBase Gen_LexRules.
 Import ListNotations.
 Local Open Scope Z_scope.
 
@@ -99,7 +99,8 @@ Definition file_commands (t : text) : list text := snd (file_fold fstate0 t).
    Validity at the level of the lexer modes and of nesting ('the text can be a sequence of
    parenthesised commands'), and the two string-literal features the pipe scanner may not know.
    --------------------------------------------------------------------------------------------- *)
-Definition is_ws (c : ascii) : bool := Ascii.eqb c ch_sp || Ascii.eqb c ch_tab || Ascii.eqb c ch_nl.
+(* the white-space rule of the .ll file, regenerated (Gen_LexRules.gen_ws_chars) *)
+Definition is_ws (c : ascii) : bool := existsb (Ascii.eqb c) gen_ws_chars.
 
 (* one character is acceptable in lexer mode m at depth d *)
 Definition char_ok (m : lmode) (d : Z) (c : ascii) : bool :=
@@ -108,7 +109,7 @@ Definition char_ok (m : lmode) (d : Z) (c : ascii) : bool :=
   | LInit => if Ascii.eqb c ch_rp then 0 <? d
              else if d =? 0 then is_ws c || Ascii.eqb c ch_semi || Ascii.eqb c ch_lp   (* nothing but commands at top level *)
              else true
-  | LPsym => negb (Ascii.eqb c ch_bs)                                                  (* .ll:170: exit(1) *)
+  | LPsym => negb (gen_psym_backslash_fatal && Ascii.eqb c ch_bs)                      (* .ll:170: exit(1) *)
   | _ => true
   end.
 
@@ -134,12 +135,14 @@ Fixpoint no_escaped_quote_from (m : lmode) (t : text) : bool :=
 Definition no_escaped_quote (t : text) : bool := no_escaped_quote_from LInit t.
 
 (* characters the lexer ECHOes to stdout while reading the text: a backslash inside a string
-   literal that is followed by neither DQ nor backslash (flex default rule) *)
+   literal that is followed by neither DQ nor backslash (flex default rule; Gen_LexRules says whether
+   the .ll file still has no <STR> rule for a single backslash) *)
 Fixpoint lex_echo_from (m : lmode) (t : text) : text :=
   match t with
   | [] => []
   | c :: r =>
-      (if lmode_eqb m LStrEsc && negb (Ascii.eqb c ch_dq) && negb (Ascii.eqb c ch_bs) then [ch_bs] else [])
+      (if gen_lone_backslash_echo && lmode_eqb m LStrEsc && negb (Ascii.eqb c ch_dq) && negb (Ascii.eqb c ch_bs)
+       then [ch_bs] else [])
       ++ lex_echo_from (lex_step m c) r
   end.
 Definition lex_echo (t : text) : text := lex_echo_from LInit t.
